@@ -5,7 +5,8 @@
 //!   spec <id> <box|point|vec> kind=<name> wp=<f32bits> wv=<f32bits> rot=<0|1> z0=<pt|pt|..> ops=<op;op;..>
 //!        pt = comma separated f32 bits (5 for a box: xc,yc,angle,aspect,height; 2 for a point);
 //!        op = P | U:<pt|pt|..>          (vec: one pt per tracked point, `|` separated)
-//!   st <id> <step> <pt-index> <I|P|U> mean=<bits,..> cov=<bits,.. row major> probe=<pt> dist=<bits|X>
+//!   st <id> <step> <pt-index> <I|P|U> mean=<bits,..> cov=<bits,.. row major> probe=<pt> dist=<bits|X> [ro=<read-out>]
+//!        box histories: ro = Universal2DBox::try_from(state) as xc,yc,angle,aspect,height bits, angle = N for None
 //!        step 0 = after initiate; probe = the measurement of the next update (or the last one used)
 //!   pst ...   same as st, for the stand-alone Point2DKalmanFilter run on point <pt-index> of a vec history
 //!   vdist <id> <step> <bits,..>      Vec2DKalmanFilter::distance on all points (vec histories)
@@ -14,7 +15,7 @@
 //!   cost <box|point|vec> <d bits> <0|1> <out bits>
 //!   mpspec <cfg>/<cfg>/..      one PROCESS-level sequence of tracker configurations for make_prediction:
 //!        cfg = <attrs|sort|sortm|vsort>:<wp bits>:<wv bits>:<obs>|<obs>|..   obs = xc,yc,angle,aspect,height bits
-//!   mp <cfg index> <kind> wp=<bits> wv=<bits> frame=<i> obs=<pt> got=<pt|X:reason> ref=<pt>
+//!   mp <cfg index> <kind> wp=<bits> wv=<bits> frame=<i> obs=<pt> got=<read-out|X:reason> refraw=<raw mean[0..5]>
 //!        got = the box returned by make_prediction / SortTrack::predicted_bbox, ref = initiate/predict/update of a
 //!        Universal2DBoxKalmanFilter::new(wp, wv) built with THAT configuration's weights
 //! Sub-commands (mkpred --seed S --n N: N configurations in ONE process, replay also takes mpspec lines):
@@ -181,16 +182,19 @@ fn run_box(s: &Spec, out: &mut impl Write) {
         let pb = mk_box(&pr[0], s.rot);
         let stc = *st;
         let d = guarded(|| f.distance(stc, &pb));
+        // the public read-out of the mean: TryFrom<KalmanState> for Universal2DBox (angle: N = None)
+        let ro = guarded(|| Universal2DBox::try_from(stc)).and_then(|r| r.ok()).map(|b| box_ro(&b)).unwrap_or_else(|| "X".into());
         writeln!(
             out,
-            "st {} {} 0 {} mean={} cov={} probe={} dist={}",
+            "st {} {} 0 {} mean={} cov={} probe={} dist={} ro={}",
             s.id,
             step,
             tag,
             bits(&m),
             bits(&c),
             bits(&pr[0]),
-            d.map(f32b).unwrap_or_else(|| "X".into())
+            d.map(f32b).unwrap_or_else(|| "X".into()),
+            ro
         )
         .unwrap();
     };
@@ -576,8 +580,16 @@ fn mp_box(z: &[f32]) -> Universal2DBox {
     Universal2DBox::new(z[0], z[1], if z[2] != 0.0 { Some(z[2]) } else { None }, z[3], z[4])
 }
 
-fn box_vec(b: &Universal2DBox) -> Vec<f32> {
-    vec![b.xc, b.yc, b.angle.unwrap_or(0.0), b.aspect, b.height]
+/// xc,yc,angle,aspect,height as f32 bits; the angle is `N` when it is None
+fn box_ro(b: &Universal2DBox) -> String {
+    format!(
+        "{},{},{},{},{}",
+        f32b(b.xc),
+        f32b(b.yc),
+        b.angle.map(f32b).unwrap_or_else(|| "N".into()),
+        f32b(b.aspect),
+        f32b(b.height)
+    )
 }
 
 fn mpspec_line(cfgs: &[MpCfg]) -> String {
@@ -642,7 +654,8 @@ fn run_mp(cfgs: &[MpCfg], out: &mut impl Write) {
             let b = mp_box(z);
             rstate = f.predict(&rstate);
             rstate = f.update(&rstate, &b);
-            let reference = Universal2DBox::try_from(rstate).unwrap();
+            // the reference is read from the RAW mean of the reference filter (not through the conversion under test)
+            let refraw: Vec<f32> = rstate.verif_raw().0[..5].to_vec();
             let got: Result<Universal2DBox, String> = match c.kind.as_str() {
                 "attrs" => guarded(|| attrs.make_prediction(&b)).ok_or_else(|| "panic".to_string()),
                 "sort" | "sortm" => {
@@ -663,7 +676,7 @@ fn run_mp(cfgs: &[MpCfg], out: &mut impl Write) {
             };
             writeln!(
                 out,
-                "mp {} {} wp={} wv={} frame={} obs={} got={} ref={}",
+                "mp {} {} wp={} wv={} frame={} obs={} got={} refraw={}",
                 ci,
                 c.kind,
                 f32b(c.wp),
@@ -671,10 +684,10 @@ fn run_mp(cfgs: &[MpCfg], out: &mut impl Write) {
                 i,
                 bits(z),
                 match &got {
-                    Ok(g) => bits(&box_vec(g)),
+                    Ok(g) => box_ro(g),
                     Err(e) => format!("X:{}", e),
                 },
-                bits(&box_vec(&reference))
+                bits(&refraw)
             )
             .unwrap();
         }
@@ -691,7 +704,8 @@ fn gen_mp_obs(rng: &mut Rng, rotated: bool) -> Vec<Vec<f32>> {
     let (mut vx, mut vy) = (sp * d.cos(), sp * d.sin());
     let grow = 1.002 + rng.unit_f64() * 0.01;
     let asp = 0.3 + rng.unit_f64() * 1.2;
-    let mut ang = if rotated { 0.2 + rng.unit_f64() * 0.5 } else { 0.0 };
+    // oriented boxes: counter-clockwise AND clockwise (negative) angles
+    let mut ang = if rotated { (0.05 + rng.unit_f64() * 1.15) * if rng.chance(1, 2) { -1.0 } else { 1.0 } } else { 0.0 };
     let mut v = vec![];
     for _ in 0..frames {
         v.push(vec![x as f32, y as f32, ang as f32, asp as f32, h as f32]);
@@ -716,7 +730,7 @@ fn gen_mp(rng: &mut Rng, n: usize) -> Vec<MpCfg> {
     for i in 0..n {
         let kind = kinds[(i + rng.below(4) as usize) % 4];
         let w = ws[i % ws.len()];
-        let rotated = kind == "attrs" && rng.chance(1, 3);
+        let rotated = rng.chance(1, 2);
         v.push(MpCfg { kind: kind.into(), wp: w.0, wv: w.1, obs: gen_mp_obs(rng, rotated) });
     }
     v
@@ -1019,6 +1033,18 @@ fn main() {
             };
             run_spec(&ut, &mut out);
             id += 1;
+            // oriented boxes with negative (clockwise), positive, zero and absent angle: the read-out of the mean
+            for (ang, rot) in [(-0.7f32, true), (-0.05, true), (0.6, true), (0.0, true), (0.0, false)] {
+                let z = |k: usize| vec![300.0 + 3.0 * k as f32, 200.0 + 2.0 * k as f32, if rot { ang - 0.01 * k as f32 } else { 0.0 }, 0.5, 80.0 + k as f32];
+                let mut ops = vec![];
+                for k in 1..4 {
+                    ops.push(Op::P);
+                    ops.push(Op::U(vec![z(k)]));
+                }
+                let s = Spec { id, ty: "box".into(), kind: "oriented".into(), wp: 1.0 / 20.0, wv: 1.0 / 160.0, rot, z0: vec![z(0)], ops, hist: vec![] };
+                run_spec(&s, &mut out);
+                id += 1;
+            }
             // deep shrink: an object whose height falls from 1e4 by 4% (10%) per frame - the regime in which the
             // f32 covariance loses symmetry / positive definiteness (reported under its own key)
             // (start height, frames of growth by 5%, shrink factor per frame, frames of shrinking):
